@@ -143,58 +143,68 @@ def doc_paths(doc, path=()):
             yield from doc_paths(v, path + (i,))
 
 
-def mutate_doc(r, doc):
-    """a single-point change of a valid document that (usually) gives another valid document"""
+MUT_KINDS = ["number", "name", "bagw", "inf", "key", "extra", "drop", "nanw", "empty", "number"]
+
+
+def mutate_doc(r, doc, prefer=None):
+    """a single-point change of a valid document that (usually) gives another valid document; the kind
+    of change is `prefer` when the document offers a place for it (the generator goes through
+    MUT_KINDS program by program), otherwise any kind it does offer"""
     ps = list(doc_paths(doc))
-    for _ in range(30):
+    where = {
+        "empty": [p for p, v in ps if isinstance(v, dict) and v.get("bins") == {} and "bins:type" in v],
+        "name": [p for p, v in ps if p and isinstance(p[-1], str) and (p[-1] == "name" or p[-1].endswith(":name"))
+                 and isinstance(v, str)],
+        "nanw": [p for p, v in ps if isinstance(v, dict) and v.get("v") == "nan" and isinstance(v.get("w"), (int, float))],
+        "bagw": [p for p, v in ps if isinstance(v, dict) and "v" in v and isinstance(v.get("w"), (int, float))
+                 and not isinstance(v.get("w"), bool)],
+        "inf": [p for p, v in ps if p and ((v in ("inf", "-inf") and p[-1] != "atleast") or
+                                           (isinstance(v, float) and p[-1] in ("sum", "mean", "min", "max", "variance")))],
+        "number": [p for p, v in ps if p and isinstance(v, (int, float)) and not isinstance(v, bool)],
+        "key": [p for p, v in ps if isinstance(v, dict) and v and p and p[-1] == "bins" and all(_isint(k) for k in v)],
+        "extra": [p for p, v in ps if isinstance(v, list) and v and p and p[-1] in ("bins", "values", "data")],
+        "drop": [p for p, v in ps if isinstance(v, list) and len(v) > 1 and p and p[-1] in ("bins", "values", "data")],
+    }
+    avail = [k for k in where if where[k]]
+    if not avail:
+        return None, None
+    for attempt in range(30):
+        kind = prefer if (prefer in avail and attempt < 5) else r.choice(avail)
         d = copy.deepcopy(doc)
-        c = r.random()
-        empties = [p for p, v in ps if isinstance(v, dict) and v.get("bins") == {} and "bins:type" in v]
-        if empties and c < 0.3:
-            p = r.choice(empties)
+        p = r.choice(where[kind])
+        at = "/".join(map(str, p))
+        if kind == "empty":
             o = get(d, p)
             o["bins:type"] = "Sum" if o["bins:type"] != "Sum" else "Count"
             o.pop("bins:name", None)
-            return "declared type of the empty bins at /%s" % "/".join(map(str, p)), d
-        names = [p for p, v in ps if p and isinstance(p[-1], str) and (p[-1] == "name" or p[-1].endswith(":name"))
-                 and isinstance(v, str)]
-        if names and c < 0.2:
+            return "declared type of the empty bins at /%s" % at, d
+        if kind == "name":
             # a quantity name (also of the immutable form, whose functions are all None)
-            p = r.choice(names)
             get(d, p[:-1])[p[-1]] = get(d, p) + "_2"
-            return "quantity name at /%s" % "/".join(map(str, p)), d
-        nanw = [p for p, v in ps if isinstance(v, dict) and v.get("v") == "nan" and isinstance(v.get("w"), (int, float))]
-        if nanw and c < 0.7:
-            # the weight of the NaN value of a Bag
-            p = r.choice(nanw)
+            return "quantity name at /%s" % at, d
+        if kind in ("nanw", "bagw"):
             get(d, p)["w"] = get(d, p)["w"] + 1.0
-            return "weight of the nan value at /%s" % "/".join(map(str, p)), d
-        if c < 0.5:
-            nums = [p for p, v in ps if p and isinstance(v, (int, float)) and not isinstance(v, bool)]
-            if not nums:
-                continue
-            p = r.choice(nums)
+            return "weight of the value %r at /%s" % (get(d, p)["v"], at), d
+        if kind == "inf":
+            v = get(d, p)
+            if v in ("inf", "-inf"):
+                get(d, p[:-1])[p[-1]] = 5.0 if v == "inf" else -3.0
+                return "infinite number made finite at /%s" % at, d
+            get(d, p[:-1])[p[-1]] = "inf" if v > 0 else "-inf"
+            return "finite number made infinite at /%s" % at, d
+        if kind == "number":
             v = get(d, p)
             get(d, p[:-1])[p[-1]] = v + r.choice([0.125, 1.0, 2.0 ** -45 * max(1.0, abs(v))])
-            return "number at /%s" % "/".join(map(str, p)), d
-        if c < 0.65:
-            cands = [p for p, v in ps if isinstance(v, dict) and v and p and p[-1] == "bins"
-                     and all(_isint(k) for k in v)]
-            if not cands:
-                continue
-            p = r.choice(cands)
+            return "number at /%s" % at, d
+        if kind == "key":
             b = get(d, p)
             k = r.choice(sorted(b))
             nk = str(int(k) + r.choice([1, -1, 7]))
             if nk in b:
                 continue
             b[nk] = b.pop(k)
-            return "bin key %s -> %s at /%s" % (k, nk, "/".join(map(str, p))), d
-        if c < 0.85:
-            cands = [p for p, v in ps if isinstance(v, list) and v and p and p[-1] in ("bins", "values", "data")]
-            if not cands:
-                continue
-            p = r.choice(cands)
+            return "bin key %s -> %s at /%s" % (k, nk, at), d
+        if kind == "extra":
             lst = get(d, p)
             last = copy.deepcopy(lst[-1])
             if isinstance(last, dict) and "atleast" in last:
@@ -206,13 +216,10 @@ def mutate_doc(r, doc):
             elif isinstance(last, dict) and "v" in last and "w" in last:
                 continue
             lst.append(last)
-            return "extra trailing element in /%s" % "/".join(map(str, p)), d
-        cands = [p for p, v in ps if isinstance(v, list) and len(v) > 1 and p and p[-1] in ("bins", "values", "data")]
-        if not cands:
-            continue
-        p = r.choice(cands)
-        get(d, p).pop()
-        return "dropped trailing element of /%s" % "/".join(map(str, p)), d
+            return "extra trailing element in /%s" % at, d
+        if kind == "drop":
+            get(d, p).pop()
+            return "dropped trailing element of /%s" % at, d
     return None, None
 
 
@@ -267,8 +274,8 @@ def gen_one(r, i, tier):
     eq(r1, r2, "reload == second reload of the same document")
     eq(r1, r1, "reload == itself")
     eq(0, r1, "live == reload")
-    for _ in range(2 if tier == "quick" else 4):
-        md, mdoc = mutate_doc(r, doc)
+    for _k in range(2 if tier == "quick" else 4):
+        md, mdoc = mutate_doc(r, doc, MUT_KINDS[(i * 4 + _k) % len(MUT_KINDS)])
         if mdoc is not None:
             # a mutation may make siblings that share one "...:type" field differ in a structural
             # parameter; the constructors of the immutable form then refuse the document (their
@@ -324,6 +331,9 @@ def oracle(p, run, exact):
         if r0 == 1 and r2 != 1:
             fails.append({"clause": "positive tolerances only widen the comparison  [C09_tolerance_widens]", "pair": what,
                           "diff": "equal at tolerance 0, unequal at 2^-40"})
+        if r0 == 1 and any(t_ != 1 for t_ in f.get("one_tolerance", [])):
+            fails.append({"clause": "positive tolerances only widen the comparison  [C09_tolerance_widens]", "pair": what,
+                          "diff": "equal at tolerance 0, with only the relative / only the absolute tolerance set: %r" % (f.get("one_tolerance"),)})
         if r0 == 1 and not f.get("docs_equal"):
             fails.append({"clause": "a == b implies the same content at every node  [C09_sound]", "pair": what,
                           "diff": "a == b although the toJson documents differ"})
